@@ -58,6 +58,17 @@ Theorem C08_totalistic_class_agrees : forall k rule u cells mask c t,
   TotalisticRule_call_masked k rule u cells mask c t = totalistic_rule_masked u cells mask k rule.
 Proof. exact totalistic_class_agrees. Qed.
 
+(* the rule object is stateless: ONE TotalisticRule(k, rule) called on any sequence of neighbourhoods (different
+   sizes, plain or masked, any c and t) answers each call like totalistic_rule on that neighbourhood alone *)
+Theorem C08_totalistic_class_sequence : forall k rule calls,
+  TotalisticRule_seq k rule calls = map (fun a => totalistic_nb k rule (fst (fst a))) calls.
+Proof. exact totalistic_class_sequence. Qed.
+
+Theorem C08_totalistic_class_sequence_nth : forall k rule calls i nb c t,
+  nth_error calls i = Some (nb, c, t) ->
+  nth_error (TotalisticRule_seq k rule calls) i = Some (totalistic_nb k rule nb).
+Proof. exact totalistic_class_sequence_nth. Qed.
+
 (* supporting: the string of np.base_repr consists of base-k digits whose value is the number *)
 Theorem C08_base_repr_value : forall k num, 2 <= k <= 36 ->
   base_repr num k = Ok (repr_digits k num) /\
@@ -103,7 +114,11 @@ Example C08_nonvacuous :
   zsum (unmasked [2;1;2; 0;0;1; 2;1;2]%Z (von_neumann_mask 1)) = 3%Z /\ (777 / 3 ^ 3) mod 3 = 1 /\
   (* a digit above 9 (k = 16) *)
   totalistic_rule false [0;1;0]%Z 16 (11 * 16 + 3) = Ok 11 /\
-  base_repr 777 3 = Ok [1;0;0;1;2;1;0] /\ base_repr 0 7 = Ok [0].
+  base_repr 777 3 = Ok [1;0;0;1;2;1;0] /\ base_repr 0 7 = Ok [0] /\
+  (* one object on radius 1, radius 2, radius 1: 3^7 is rejected for 3 cells, accepted for 5 *)
+  TotalisticRule_seq 3 (3 ^ 7) [(Plain false [0;0;0]%Z, 0%Z, 1%nat); (Plain false [2;2;2;1;0]%Z, 1%Z, 1%nat);
+                                 (Plain true [0;0;0]%Z, 2%Z, 2%nat)]
+  = [Raise ValueError; Ok 1; Raise ValueError].
 Proof. vm_compute. repeat (split; [reflexivity|]). reflexivity. Qed.
 
 Print Assumptions C08_totalistic_digit.
@@ -116,3 +131,5 @@ Print Assumptions C08_totalistic_class_agrees.
 Print Assumptions C08_base_repr_value.
 Print Assumptions C08_base_repr_length.
 Print Assumptions C08_sum_bounds.
+Print Assumptions C08_totalistic_class_sequence.
+Print Assumptions C08_totalistic_class_sequence_nth.
